@@ -38,7 +38,19 @@ def run():
              f"brand-new palette class per round (coloured, then no_color); and every rendering order of the members of 3 groups of tables built from another table's format object "
              f"(fmt_obj=other.fmt, records of different widths; the reference is the member of a fresh, never rendered group); "
              f"(C) {sizes.get('random')} seeded random histories "
-             f"of 3..12 steps over 3 config slots and 3-4 objects each (random.Random(seed*7919+10)). "
+             f"of 3..12 steps over 3 config slots and 3-4 objects each (random.Random(seed*7919+10)); "
+             f"(D) format changes between the renderings of a table (steps table.fmt = text / table.remove_columns(names); "
+             f"the reference is a never rendered twin table given the same changes in the same order): "
+             f"{sizes.get('format_change')} histories render / change / render (/ change / render) - for each of "
+             f"{len(driver.LIMITED)} limited tables (a records limit, given in the fmt or as limits=, hides records whose values "
+             f"are longer than the visible ones; columns of negotiable width, plain / enum / break-by) every new fmt of "
+             f"{{columns part empty = columns kept, '*', named columns incl. enum modifiers and break-by}} x {{limits lifted, "
+             f"widened, narrowed, kept}} ({len(driver.GENERIC_FMTS)} generic + {len(driver.NAMED_FMTS)}..{len(driver.NAMED_FMTS) + len(driver.ENUM_FMTS)} named), "
+             f"each also followed by a second change (quick: {len(driver.SECOND_FMTS)}; thorough: every fmt), a removed column "
+             f"before / after a fmt change; for every other table of the catalogue every generic fmt (quick: "
+             f"{len(driver.GENERIC_FMTS_QUICK)} of them) - and {sizes.get('format_change_random')} seeded random histories of "
+             f"4..12 steps over {{new config, render, fmt change, remove a column, drop config}} on a limited table and one more "
+             f"table (random.Random(seed*7919+12)). "
              f"non-trivial = >= 2 configurations alive at different times (one discarded) and >= 1 object with an enum column "
              f"rendered",
         exhaustive=False,
@@ -51,6 +63,10 @@ def run():
         "the reference configuration is ColorsConfig(same description) with the same components registered in the order "
         "recorded by the syntax map; a request whose reference map differs from the map in force is skipped (diagnostic); "
         "the reference is rendered in a process that has rendered nothing before (fork of the pristine state)",
+        "the format of a table is part of the object: after table.fmt = text / remove_columns steps the equal object of "
+        "the history clause is a twin constructed in the same way and given the same format changes in the same order, "
+        "never rendered before or in between; a format change which raises is recorded (diagnostic) and given to the twin "
+        "as well",
         "a PPRecordFmt is always applied to the same record (its column widths are finalised by the first record: format "
         "state, not colour state); PPTable widths are finalised by its own records",
         "console help: HCommand is constructed at the moment of the request (it takes its palette from the global "
